@@ -42,6 +42,7 @@ impl IncreasingNonceGenerator {
         ensures
             //#C12 C03
             is_init(r.nonce@),
+            r.nonce@ =~= nonce_init(),
     {
         Self { nonce: [u8::MAX; 12] }
     }
@@ -92,7 +93,7 @@ impl Authenticator {
     fn new(method: CipherMethod) -> (r: Self)
         ensures r.alg() == method.alg(), r.key() == method.key(),
             //#C12 C03
-            is_init(r.n()),
+            is_init(r.n()), r.n() == nonce_init(),
     {
         Self { method, nonce_generator: IncreasingNonceGenerator::init() }
     }
